@@ -600,10 +600,21 @@ func c15Anchors(ctx *core.Ctx) {
 			map[string]int{"\tdefer ": 0, "b.release()": 1, "funcs.reconstruct(": 1}},
 		{"schema.go", "func (v *valuesSliceBuffer) release()", []string{"valuesSliceBufferPool.Put(v)"}, nil},
 		{"schema.go", "func acquireValuesSliceBuffer()", []string{"return valuesSliceBufferPool.Get("}, nil},
+		// process-wide registries and caches (PqModel.Registry): the lock precedes every map access,
+		// copy-on-write caches publish a new map instead of writing the shared one
+		{"file.go", "func getBufioReaderPool(", []string{"bufioReaderPoolLock.Lock()", "defer bufioReaderPoolLock.Unlock()", "if pool := bufioReaderPool[size]; pool != nil {", "return pool", "pool := &memory.Pool[bufio.Reader]{}", "bufioReaderPool[size] = pool", "return pool"},
+			map[string]int{"bufioReaderPool[": 2, "bufioReaderPoolLock.Lock()": 1}},
+		{"file.go", "func getBufioReader(", []string{"pool := getBufioReaderPool(bufferSize)", "rbuf := pool.Get("}, map[string]int{"bufioReaderPool[": 0}},
+		{"schema.go", "func schemaOf(", []string{"cachedSchemas.Load(model)", "NewSchema(model.Name()", "cachedSchemas.LoadOrStore(model, schema)", "schema = actual.(*Schema)"}, nil},
+		{"schema.go", "func (c *cacheMap[K, V]) load(", []string{"oldMap, _ := c.value.Load().(map[K]V)", "newMap := make(map[K]V, len(oldMap)+1)", "maps.Copy(newMap, oldMap)", "newMap[k] = value", "c.value.Store(newMap)"}, map[string]int{"oldMap[k] =": 0}},
+		{"column_buffer_reflect.go", "func writeValueFuncOfGroup(", []string{"structFieldsCache.Load().(map[reflect.Type]map[string][]int)", "cachedFieldsBefore := cachedFields", "cachedFields = make(map[reflect.Type]map[string][]int, len(cachedFieldsBefore)+1)", "maps.Copy(cachedFields, cachedFieldsBefore)", "structFieldsCache.Store(cachedFields)"}, nil},
 		{"writer.go", "func (rg *ConcurrentRowGroupWriter) Commit()", []string{"rg.writer.flush()", "return rg.writer.writeRowGroup(rg, nil, nil)"}, nil},
 		{"writer.go", "func (w *writer) writeRowGroup(", []string{"rowGroupIndex := len(w.rowGroups)", "rg.reset()", "fileOffset := w.writer.offset", "dataPageOffset := w.writer.offset", "c.offsetIndex.PageLocations[j].Offset += dataPageOffset", "io.Copy(&w.writer, c.pageBuffer)"}, nil},
 	}
 	poolNote := func(file string) string {
+		if file == "file.go" || file == "column_buffer_reflect.go" {
+			return " — registry protocol: Props.C15.registry_linearizable needs every map access under the lock; Props.C15.registry_fast_path_conflict proves that an unlocked lookup admits a map read concurrent with a map write"
+		}
 		if file == "compress/compress.go" || file == "schema.go" || file == "internal/memory/pool.go" {
 			return " — pool protocol: Props.C15.pool_exclusive needs the put to be the owner's last action on the object; for a put before the last use Props.C15.pool_slip_encode_not_exclusive / pool_slip_reconstruct_not_exclusive prove that two goroutines may touch the same object"
 		}
@@ -646,6 +657,14 @@ func c15Anchors(ctx *core.Ctx) {
 				ctx.Fail("L2", "mirror-anchor-missing "+f.file, fmt.Sprintf("`%s` occurs %d times in %s, the Lean mirror assumes %d%s", stmt, got, f.start, want, poolNote(f.file)),
 					map[string]any{"file": f.file, "function": f.start, "statement": stmt, "occurrences": got, "assumed": want})
 			}
+		}
+	}
+	// the registry map is touched nowhere outside its accessor
+	if src, ok := cache["file.go"]; ok {
+		ctx.Hist("mirror_anchor", "file.go")
+		if n := strings.Count(src, "bufioReaderPool["); n != 2 {
+			ctx.Fail("L2", "mirror-anchor-missing file.go", fmt.Sprintf("the registry map bufioReaderPool is indexed %d times in file.go, the Lean mirror (PqModel.Registry) assumes 2, both under bufioReaderPoolLock — Props.C15.registry_fast_path_conflict proves that an unlocked lookup admits a map read concurrent with a map write", n),
+				map[string]any{"file": "file.go", "statement": "bufioReaderPool[", "occurrences": n, "assumed": 2})
 		}
 	}
 	// the page.go:NNN references in the doc comments of PqModel/Async.lean (information only)
@@ -999,6 +1018,9 @@ func RunC15Scenarios(ctx *core.Ctx) {
 	base := ctx.Seed * 1000
 	// ---- in-process (no race detector): serial output == concurrent output
 	for _, sc := range C15Scenarios {
+		if sc.SubprocessOnly {
+			continue
+		}
 		for s := 0; s < seeds; s++ {
 			seed := base + int64(s)
 			a, b, err := func() (a, b string, err error) {
